@@ -773,6 +773,13 @@ class CeiloChunk(AbstractChunk):
             raise AmpycloudError('Slicing not yet done. You cannot find groups without ' +
                                  'finding slices first !')
 
+        # If layers already exist, re-doing the grouping would discard the layering information.
+        # Refuse *before* touching anything (see also _setup_sligrolay_pdf()).
+        if self._layers is not None:
+            raise AmpycloudError('Layering already done.'
+                                 ' If you find your groups again now, you will loose the'
+                                 ' layering information !')
+
         # First, make sure that we can keep track of the isolation status of slices.
         self._slices['isolated'] = None
 
